@@ -122,7 +122,8 @@ def check(ctx):
 
         ctx.paths("R13-b", close, [("wakeall", [lambda frag, node, ids=lp_ids: node.kind == "for_iter" and id(node.node) in ids])],
                   step2, False, at_exit2, instance=f"{cls}.close wakes all of {other_q} when the last clone closes")
-        tests = [n for n in own_walk(close.node) if isinstance(n, ast.If) and F(ast.unparse(n.test)) in zero]
+        zkeys = {z[0] for z in zero}
+        tests = [n for n in own_walk(close.node) if isinstance(n, ast.If) and F(ast.unparse(n.test))[0] in zkeys]      # either orientation
         ctx.need("R13-b", close, f"test for the last clone (`{ctr} == 0`)", len(tests), 1)
         if clears:
             cl = ctx.sites(close, f"self._state.{other_q}.clear()")
